@@ -67,7 +67,7 @@ static std::vector<Val> read_seq(int const* root, MV const& m, bool lead) {
 
 static bool is_perm(std::vector<Val> a, std::vector<Val> b) { std::sort(a.begin(), a.end()); std::sort(b.begin(), b.end()); return a == b; }
 
-struct Ctx3 { int alg; bool lead; L mid, k; Rng* g; std::string fam; bool alias; };
+struct Ctx3 { int alg; bool lead; L mid, k; Rng* g; std::string fam; bool alias; bool cross = false; };
 
 // core: v/vb are real mutable views of A/B (same family, same shape); m their common model
 template<class V, class VB> void exercise(V&& v, VB&& vb, MV const& m, MV const& m2, std::vector<int>& rootA, std::vector<int>& rootB, int* pa, int* pb, Ctx3& c) {
@@ -132,6 +132,7 @@ template<int D, class F> void with_family(int fam, multi::array<int, D>& A, mult
 		L const s1 = m.size[1];
 		if(c.alias && s0 == s1) { if(fam % 2) { c.fam = "alias:whole-vs-transposed"; f4(A(), A.transposed(), m, m_transposed(m)); } else { c.fam = "alias:rotated-vs-whole"; f4(A.rotated(), A(), m_rotated(m), m); } return; }
 		if(c.alias && s0 == s1 + 1 && s1 >= 1) { c.fam = "alias:top-block-vs-bottom-block-transposed"; f4(A.sliced(0, s1), A.sliced(1, s0).transposed(), m_sliced(m, 0, s1), m_transposed(m_sliced(m, 1, s0))); return; }
+		if(c.cross && s0 == s1) { c.fam = "cross:whole-vs-transposed-of-B"; f4(A(), B.transposed(), m, m_transposed(m)); return; }  // second range: same extents, other strides, other root
 		switch(fam % 9) {
 		case 0: c.fam = "whole"; f(A(), B(), m); return;
 		case 1: if(s0 >= 2 && s1 >= 3) { c.fam = "block"; std::vector<CallArg> as{{1, 1, s0}, {1, 1, s1 - 1}}; f(A({1, s0}, {1, s1 - 1}), B({1, s0}, {1, s1 - 1}), m_call(m, as)); return; } break;
@@ -148,6 +149,7 @@ template<int D, class F> void with_family(int fam, multi::array<int, D>& A, mult
 		L const s1 = m.size[1], s2 = m.size[2];
 		if(c.alias && s1 == s2) { c.fam = "alias:whole-vs-inner-transposed"; f4(A(), A.rotated().transposed().unrotated(), m, m_unrotated(m_transposed(m_rotated(m)))); return; }
 		if(c.alias && s0 == s1) { c.fam = "alias:whole-vs-transposed"; f4(A(), A.transposed(), m, m_transposed(m)); return; }
+		if(c.cross && s0 == s1) { c.fam = "cross:whole-vs-transposed-of-B"; f4(A(), B.transposed(), m, m_transposed(m)); return; }  // second range: same extents, other strides, other root
 		switch(fam % 7) {
 		case 0: c.fam = "whole"; f(A(), B(), m); return;
 		case 1: if(s0 >= 2 && s1 >= 2 && s2 >= 2) { c.fam = "block"; std::vector<CallArg> as{{1, 1, s0}, {1, 0, s1 - 1}, {1, 1, s2}}; f(A({1, s0}, {0, s1 - 1}, {1, s2}), B({1, s0}, {0, s1 - 1}, {1, s2}), m_call(m, as)); return; } break;
@@ -168,6 +170,8 @@ template<int D> void one(Case& cs) {
 	Ctx3 c{ONLY_ALG >= 0 ? ONLY_ALG : int(g.below(NALG)), g.chance(1, 2), 0, 0, &g, "", false};
 	c.alias = (c.alg == 15 || c.alg == 16 || c.alg == 19) && g.chance(1, 2);  // read-only two-range algorithms: the second range may be another view of the SAME root
 	g_proxy_val = g.chance(1, 2);
+	c.cross = !c.alias && D >= 2 && (c.alg == 9 || c.alg == 11 || c.alg == 12 || c.alg == 14 || c.alg == 16) && g.chance(1, 3);  // two-range algorithms whose second range has the same extents but another layout
+	if(c.cross) { if(sz[0] == 0) sz[0] = 2; sz[1] = sz[0]; }
 	if(c.alias && D >= 2) {  // shapes for which a same-shape, differently laid out view of the same root exists
 		if(sz[0] == 0) sz[0] = 2;
 		if(D == 3) { if(g.chance(1, 2)) sz[2] = sz[1]; else { sz[0] = std::min<L>(sz[0], 3); sz[1] = sz[0]; } }
@@ -184,7 +188,7 @@ template<int D> void one(Case& cs) {
 		c.fam = "empty-root"; exercise(A(), B(), m, m, ra, rb, pa, pb, c); return; }
 	int const fam = int(g.below(63));
 	with_family<D>(fam, A, B, m, c, [&](auto&& va, auto&& vb, MV const& vm, MV const& vmb) {
-		bool const aliased = c.fam.rfind("alias:", 0) == 0; if(aliased) count("aliased_second_range");
+		bool const aliased = c.fam.rfind("alias:", 0) == 0; if(aliased) count("aliased_second_range"); if(c.fam.rfind("cross:", 0) == 0) count("cross_layout_second_range");
 		exercise(std::forward<decltype(va)>(va), std::forward<decltype(vb)>(vb), vm, vmb, ra, aliased ? ra : rb, pa, aliased ? pa : pb, c); });
 }
 
